@@ -26,7 +26,8 @@ RULE = ('case = a fresh directory holding 1-4 include targets and an including c
         ' An eighth of the cart targets use 14-18 editor tabs, with selectors at the last tabs and one past them.'
         ' Cart targets without code may lack the __lua__ section altogether (two fixed specs and random ones); string statements of targets may hold P8SCII bytes that are well-formed UTF-8.'
         ' .lua targets may contain a bare CR inside a long string / comment; near-separator lines include indented -->8.'
-        ' An eighth of the carts include themselves (main.p8, main.p8:0, main.p8:1, ./main.p8: the code as stored, not expanded again); a quarter hold a long comment / long string with a line that starts like an include line but names no .lua/.p8/.p8.png file (passed through unchanged).')
+        ' An eighth of the carts include themselves (main.p8, main.p8:0, main.p8:1, ./main.p8: the code as stored, not expanded again); a quarter hold a long comment / long string with a line that starts like an include line but names no .lua/.p8/.p8.png file (passed through unchanged).'
+        ' Cart targets may hold an include line inside an open table constructor (not expanded, ordinary text), or a block comment / long string that runs across a `-->8` line (tabs are counted on text lines).')
 ASSUMPTIONS = [
     'tab numbering is the one picotool documents (lines_for_tab, game_test.py): tab 0 is the code before the first '
     'line starting with `-->8`, tab n the lines after the n-th and before the (n+1)-th such line; the separator '
@@ -180,6 +181,23 @@ def gen_spec(seed, avoid=(), missing=False):
                     lines.append(stmt(ch, high_ok=True))
             if nested_line:
                 lines.insert(ch.below(len(lines) + 1), nested_line)
+            odd = bytes(seed)[-15] if len(seed) >= 15 else 0
+            if odd % 8 == 1 and seps >= 1:
+                # an include line inside an open construct of the included cart (a data table filled from a file): the
+                # cart is fine once ITS includes are expanded, and nobody asked for that - the line is ordinary text here
+                lines[0:0] = [b'dat={', b'#include ' + nested, b'}']
+                t['include_inside_block'] = True
+            elif odd % 8 == 2 and seps >= 1:
+                # a block comment (code switched off) that runs across a tab boundary: tabs are the `-->8` LINES of the text
+                k = [i for i, ln in enumerate(lines) if ln == SEPARATOR][0]
+                lines.insert(k, b'--[[ old')
+                lines.insert(k + 2, b'still old ]]')
+                t['comment_across_tabs'] = True
+            elif odd % 8 == 3 and seps >= 1:
+                k = [i for i, ln in enumerate(lines) if ln == SEPARATOR][0]
+                lines.insert(k, b'txt=[[line')
+                lines.insert(k + 2, b'more]]')
+                t['comment_across_tabs'] = True
             code = b'\n'.join(lines)
             if lines and not ch.chance(100):
                 code += b'\n'
@@ -194,9 +212,13 @@ def gen_spec(seed, avoid=(), missing=False):
     for (ti, want_sel, sel_raw, form, pos_raw) in inc_choices:
         t = targets[ti % nt]
         name = t['path'].encode()
-        if t['kind'] != 'lua' and want_sel:
+        if t['kind'] != 'lua' and (want_sel or t.get('include_inside_block')):
             nsep = sum(1 for ln in lines_of(t['code']) if ln.startswith(SEPARATOR))
-            if nsep >= 13:
+            if t.get('include_inside_block'):
+                name += b':%d' % (1 + sel_raw % (nsep + 2))      # (any tab but the one holding the block)
+            elif t.get('comment_across_tabs'):
+                name += b':%d' % (2 + sel_raw % (nsep + 1))      # (a tab the two-tab token does not touch)
+            elif nsep >= 13:
                 name += b':%d' % (nsep + 1 - sel_raw % 5)       # the last tabs and one past them
             else:
                 name += b':%d' % (sel_raw % (nsep + 3))
@@ -551,6 +573,10 @@ def labels_for(spec):
         labs.append('kind_' + t['kind'])
         if t.get('self'):
             labs.append('cart_includes_itself')
+        if t.get('include_inside_block'):
+            labs.append('included_cart_has_include_line_inside_a_block')
+        if t.get('comment_across_tabs') and sel is not None:
+            labs.append('tab_selected_from_cart_with_token_across_tabs')
         content = t['data'] if t['kind'] == 'lua' else t['code']
         tl = target_lines(t)
         nsep = sum(1 for ln in tl if ln.startswith(SEPARATOR))
@@ -635,6 +661,13 @@ FIXED_SPECS = [
      'targets': [{'path': 'sub/dir/assets.p8', 'kind': 'p8', 'code': b'', 'label': 2, 'full': False}]},
     {'main_code': b'a=1\n-->8\nb=2\n#include main.p8:1\n--[[\n#include <file> is not supported here\n]]\n#include main.p8\n',
      'targets': [], 'self_include': True},
+    # an included cart with an include line inside a table (another tab is selected); a comment across a tab boundary
+    {'main_code': b'x=1\n#include inner.p8:1\ny=2\n',
+     'targets': [{'path': 'inner.p8', 'kind': 'p8', 'code': b't={\n#include d.lua\n}\n-->8\nu=1\n', 'label': 0, 'full': True},
+                 {'path': 'd.lua', 'kind': 'lua', 'data': b'1,2,3\n'}]},
+    {'main_code': b'x=1\n#include inc.p8:2\ny=2\n#include inc.p8.png:2\n',
+     'targets': [{'path': 'inc.p8', 'kind': 'p8', 'code': b'a=1\n--[[ old\n-->8\nstill old ]]\nb=2\n-->8\nc=3\n', 'label': 0, 'full': True},
+                 {'path': 'inc.p8.png', 'kind': 'p8png', 'code': b'a=1\ns=[[ old\n-->8\nstill old ]]\nb=2\n-->8\nc=4\n', 'label': 1, 'version': 8}]},
 ]
 
 
@@ -685,7 +718,8 @@ REQUIRED = ('includes_0', 'includes_1', 'includes_2', 'includes_3', 'includes_4'
             'line_follows_target_without_final_newline', 'nested_include_verbatim', 'subdir', 'same_target_twice',
             'include_line_padded', 'name_with_dash_dot_digit', 'crlf_target', 'missing_target', 'place_plain',
             'place_carts_root', 'place_carts_sub', 'tab_14_or_later_of_many', 'p8_target_without_lua_section',
-            'cart_includes_itself', 'include_lookalike_line')
+            'cart_includes_itself', 'include_lookalike_line', 'included_cart_has_include_line_inside_a_block',
+            'tab_selected_from_cart_with_token_across_tabs')
 
 
 def vacuity(total, tier):
